@@ -46,6 +46,44 @@ def strip_shell_comments(text: str) -> str:
     return "".join(result)
 
 
+def blank_comments(text: str) -> str:
+    """Replace every comment by blanks (line breaks are kept, so positions stay the same).
+
+    Comments are '#' and '//' to the end of the line and '/* ... */'; none of them starts
+    inside a quoted string. The macro preprocessor works on the raw text: whatever a
+    comment quotes (a macro definition, a macro call, an old project header, a date after
+    the word 'now') must not be taken for the real thing.
+    """
+    result: list[str] = []
+    i = 0
+    n = len(text)
+    while i < n:
+        ch = text[i]
+        if ch in "\"'":
+            quote = ch
+            result.append(ch)
+            i += 1
+            while i < n and text[i] != quote:
+                result.append(text[i])
+                i += 1
+            if i < n:
+                result.append(text[i])
+                i += 1
+        elif ch == "#" or text.startswith("//", i):
+            while i < n and text[i] != "\n":
+                result.append(" ")
+                i += 1
+        elif text.startswith("/*", i):
+            end = text.find("*/", i + 2)
+            end = n if end < 0 else end + 2
+            result.extend("\n" if c == "\n" else " " for c in text[i:end])
+            i = end
+        else:
+            result.append(ch)
+            i += 1
+    return "".join(result)
+
+
 class MacroProcessor:
     """Preprocesses TJP content to expand macros.
 
@@ -75,8 +113,11 @@ class MacroProcessor:
         Returns:
             The processed content with macros expanded
         """
-        # First pass: extract macro definitions
+        # First pass: extract macro definitions (not from comments or strings)
         content = self._extract_macros(content)
+
+        # Comments are no text: nothing in them calls a macro, declares the project or says 'now'
+        content = blank_comments(content)
 
         # Extract project dates for built-in macros
         self._extract_project_dates(content)
@@ -97,8 +138,33 @@ class MacroProcessor:
         n = len(content)
 
         while i < n:
+            # Strings and comments are copied as they are: a definition quoted in a comment is
+            # no definition
+            if content[i] in "\"'":
+                quote = content[i]
+                j = i + 1
+                while j < n and content[j] != quote:
+                    j += 1
+                result.append(content[i : j + 1])
+                i = j + 1
+                continue
+            if content[i] == "#" or content.startswith("//", i):
+                j = content.find("\n", i)
+                j = n if j < 0 else j
+                result.append(content[i:j])
+                i = j
+                continue
+            if content.startswith("/*", i):
+                j = content.find("*/", i + 2)
+                j = n if j < 0 else j + 2
+                result.append(content[i:j])
+                i = j
+                continue
+
             # Look for 'macro' keyword
-            match = re.match(r"\s*macro\s+(\w+)\s*\[", content[i:])
+            match = None
+            if i == 0 or not (content[i - 1].isalnum() or content[i - 1] == "_"):
+                match = re.match(r"\s*macro\s+(\w+)\s*\[", content[i:])
             if match:
                 macro_name = match.group(1)
                 start_pos = i + match.end()
